@@ -92,6 +92,29 @@ class Exec:
         g = gg.graph_from_json(graph_json)
         self.orig = g
         self.real = M.mk_scfg(g, "bytecode" if next(iter(g)).startswith("python_bytecode") else "plain")
+        if prestage == "typed":
+            # a graph as a caller may hand it over (dict / YAML input with typed blocks): some blocks already are
+            # synthetic tails / exits / fills and branching synthetic blocks with value tables; which ones is a
+            # function of the block names only.  Paths are not judged for such graphs (their variables are unassigned).
+            from numba_scfg.core.datastructures.basic_block import SyntheticExitBranch
+            from numba_scfg.core.datastructures.scfg import SCFG
+
+            from .core import h64
+
+            blocks = {}
+            for k, b in self.real.graph.items():
+                jt = tuple(b._jump_targets)
+                h = h64(("typed", k, jt)) % 8
+                if len(jt) == 1 and h < 5:
+                    blocks[k] = (SyntheticTail, SyntheticExit, SyntheticFill, SyntheticTail, SyntheticTail)[h](name=k, _jump_targets=jt, backedges=())
+                elif len(jt) == 2 and h < 6:
+                    cls = (SyntheticBranch, SyntheticHead, SyntheticExitBranch, SyntheticBranch, SyntheticHead, SyntheticExitBranch)[h]
+                    blocks[k] = cls(name=k, _jump_targets=jt, backedges=(), variable=f"__scfg_control_var_{k}__", branch_value_table={0: jt[0], 1: jt[1], 2: jt[h % 2]})
+                else:
+                    blocks[k] = b
+            self.real = SCFG(blocks)
+            self.paths_ok = False
+            self.flags.add("typed_init")
         if prestage in ("loop", "branch"):
             self._call(self.real.join_returns)
             self._call(self.real.restructure_loop)
@@ -250,6 +273,15 @@ class Exec:
         real = self.cur
         before = self.top()
         arcs = [(t, x) for t in tails for x in before[t]["jt"] if x in exits]
+        # classes worth counting: a tail that also jumps to another tail; a branching (tabled) tail; a synthetic tail/exit among the tails
+        if any(y in tails for t in tails for y in before[t]["jt"]):
+            self.flags.add("jte_tail_to_tail")
+        if any("table" in before[t] for t in tails):
+            self.flags.add("jte_branching_tail")
+        if any(before[t]["type"] in ("SyntheticTail", "SyntheticExit") for t in tails):
+            self.flags.add("jte_synthetic_tail")
+        if any("table" in before[t] and any(y in tails and before[y]["type"] in ("SyntheticTail", "SyntheticExit") for y in before[t]["jt"]) for t in tails):
+            self.flags.add("jte_branching_tail_to_synthetic_tail")
         st, sx = self._call(real.join_tails_and_exits, list(tails), list(exits))
         after = self.top()
         if st not in after:
@@ -276,6 +308,17 @@ class Exec:
                 raise M.Viol("E-jte-arc", f"arc {t}->{x}: {cur} does not lead to {x}: {after[cur]['jt']}")
             if x in after[t]["jt"] and (st != t or sx != x):
                 raise M.Viol("E-jte-direct", f"arc {t}->{x} still exists beside the joined path")
+        for t in tails:
+            # a branching tail keeps every key of its value table; the values that named an exit now name the joined path
+            if "table" in before[t] and t in after and "table" in after[t]:
+                tb, ta = before[t]["table"], after[t]["table"]
+                if set(ta) != set(tb):
+                    raise M.Viol("E-table-keys", f"join_tails_and_exits: value table keys of tail {t} changed {tb} -> {ta}")
+                for k_, old in tb.items():
+                    if old not in exits and ta[k_] != old:
+                        raise M.Viol("E-table", f"join_tails_and_exits: table entry {k_} of tail {t} was {old} (not an exit), is now {ta[k_]}")
+                    if old in exits and (ta[k_] not in (st, sx, old) or ta[k_] not in after[t]["jt"]):
+                        raise M.Viol("E-table", f"join_tails_and_exits: table entry {k_} of tail {t} named exit {old}, now names {ta[k_]}")
         for k in before:
             if k not in tails and after[k] != before[k]:
                 raise M.Viol("E-other", f"join_tails_and_exits changed block {k} which is not a tail")
